@@ -461,3 +461,7 @@ def main(sess):
     for name, f in (('tree', fam_tree), ('calc', fam_calc), ('cache', fam_cache), ('minus', fam_minus)):
         if not only or name in only:
             f(sess)
+
+    if not only or 'e2e' in only:
+        from drivers import e2e
+        e2e.family_for(sess, 'C15')
